@@ -139,7 +139,7 @@ impl<'a> RunSource for Src<'a> {
         }
         let index = self.next_index()?;
         let seed = prng::run_seed(self.cfg.base_seed, self.salt, index);
-        let (s, c) = props::generate(&self.cfg.prop, seed);
+        let (s, c) = props::generate(&self.cfg.prop, seed, index);
         self.cur = Some((index, seed, s.clone(), c.clone()));
         Some((s, c))
     }
